@@ -26,7 +26,11 @@ RULE = ("K = 2..4 users with unequal Nr/Nt/Ns, raw channel matrix supplied by "
         "three different setter routes.  The oracle sums |u^H H f|^2 stream by "
         "stream.  Signature = (object kind, K, Nr, Nt, Ns, noise class, path "
         "loss state, round kind); non-trivial = at least one interfering "
-        "stream.")
+        "stream.  "
+        "Noise values are also passed as int / np.int64 / np.float64; the "
+        "aligned generator uses zero-forcing joint precoders with identity "
+        "filters and no noise (denominators at rounding level or exactly zero) "
+        "and requires non-negative, non-NaN SINRs. ")
 ASSUMPTIONS = ["relative tolerance 256 eps n (1 + SINR): the library forms the "
                "denominator by subtracting the own-stream covariance",
                "K >= 2 with generic precoders, so denominators are positive"]
